@@ -126,8 +126,8 @@ def run(ctx: Ctx) -> dict:
         for _ in range(per):
             acct = "".join(rng.choice("0123456789") for _ in range(10))
             if rng.random() < 0.3:
-                acct = "0" * rng.choice((1, 2, 3, 4, 5)) + acct[5:].rjust(10, "0")[-(10 - 0):]
-                acct = acct[-10:].rjust(10, "0")
+                z = rng.choice((1, 2, 3, 4, 5, 6, 7))
+                acct = "0" * z + acct[z:]
             for v in with_every_check_digit(acct, m):
                 ops.append({"op": "algo.validate", "method": m, "account": cps(v)})
         for acct in boundary_accounts(m, rng):
